@@ -5,9 +5,10 @@ ends in `h`), `read` versus `replaceAt`, and list lemmas for `_round_robin`. -/
 namespace PynguinModel.Mutants
 
 /-! ### induction over rose trees -/
-theorem Tree.ind {P : Tree → Prop} (step : ∀ l ks, (∀ k ∈ ks, P k) → P (.node l ks)) : ∀ t, P t := by
+theorem Tree.ind {P : Tree → Prop} (step : ∀ l ks, (∀ k ∈ ks, P k) → P (.node l ks))
+    (hole : ∀ v, P (.hole v)) : ∀ t, P t := by
   intro t
-  exact Tree.rec (motive_1 := P) (motive_2 := fun ks => ∀ k ∈ ks, P k) step
+  exact Tree.rec (motive_1 := P) (motive_2 := fun ks => ∀ k ∈ ks, P k) step hole
     (fun k hk => by cases hk)
     (fun k ks hk hks k' hk' => by
       rcases List.mem_cons.mp hk' with rfl | hk'
@@ -202,6 +203,7 @@ theorem run_visit (op : Op) (tgt : Target) : ∀ (t : Tree) (h : Heap) (p : Path
       simp only [hc, Bool.false_eq_true, if_false]
       rw [run_append, run_append, hx1, hx2]
       simp [run_nil, run_write, run_yield, yields_append, yields, hnil, hfix]
+  | hole v => intro h p; simp [visit, run_nil, yields]
 
 end PynguinModel.Mutants
 
